@@ -23,7 +23,7 @@ ASSUMPTIONS = [
     "for a refused cross-project operation only: error class, no foreign pair recorded, tables consistent and unchanged for pairs not named by the op",
 ]
 REQUIRED_LABELS = {
-    "quick": ["reconnect_after_disconnect", "list_overlap", "freed_slot_middle", "cross_project", "self_loop", "mixed_disconnect_list", "other_project_linked"],
+    "quick": ["reconnect_after_disconnect", "list_overlap", "freed_slot_middle", "cross_project", "self_loop", "mixed_disconnect_list", "other_project_linked", "save_midway"],
     "thorough": ["reconnect_after_disconnect", "list_overlap", "freed_slot_middle", "cross_project", "self_loop", "mixed_disconnect_list"],
 }
 
@@ -225,8 +225,9 @@ def op_list(draw, max_modules=8, max_ops=30, with_save_load=False):
     k = draw(st.integers(1, max_ops))
     kinds = ["rshift", "lshift", "rshift_dis", "lshift_dis", "rshift_list", "lshift_list", "chain_r", "chain_l", "mlist_r_dis", "mlist_r_list", "mlist_l_list", "chain_r_list", "chain_l_list", "connect", "connect_single", "x", "x", "xlink", "new"]
     weights = kinds + ["rshift", "lshift", "rshift_dis", "lshift_dis", "connect", "connect", "rshift_list"]
+    weights = weights + ["save", "save"]  # a user saves whenever they like; it must not disturb the tables
     if with_save_load:
-        weights = weights + ["save_load", "save_load", "save_load", "save", "save"]
+        weights = weights + ["save_load", "save_load", "save_load", "save"]
     idx = lambda: draw(st.integers(0, n - 1))  # noqa: E731
     idxs = lambda lo=1, hi=4: draw(st.lists(st.integers(0, n - 1), min_size=lo, max_size=hi, unique=True))  # noqa: E731
     for _ in range(k):
